@@ -494,63 +494,71 @@ def ask (cfg : Config) (origin : Bytes → Option Origin) (req : Request) (cs : 
 def logged (cfg : Config) (cs : List Contact) (h : Header) : List Contact :=
   if cs.length ≥ cfg.contactLimit then cs else cs ++ [contactOf h]
 
-/-- the writer rows of `cachingFunc` (server.go:283-478): NotFoundWriter (nothing stored) or
-    RevalidatingWriter (`reval` = the key it was found under, the entry, its age) -/
-def writerRow (cfg : Config) (origin : Bytes → Option Origin) (now : Int) (req : Request)
-    (keys : List Key) (rr : Option Range.ReqRange) (d : Disk) (client ai : Header) (cs : List Contact)
-    (reval : Option (Key × Stored × Int)) : Step :=
-  let shouldSkip := (client.get b!"authorization").length > 0
+/-- the writer `cache.Get` hands out on a writer row: for the key the entry was found under
+    (RevalidatingWriter) or for the preferred key of the list (NotFoundWriter) -/
+def writerOf (keys : List Key) (client : Header) (reval : Option (Key × Stored × Int)) : Writer :=
   let key : Key := match reval with
     | some (k, _, _) => k
     | none => match notFoundPreferredKey keys with | .ok k => k | .panic _ => keys.headD ⟨[], [], [], false, []⟩
-  let w : Writer := { key := key, path := keyString key, revalidating := reval.isSome, diskWritesDisabled := shouldSkip }
+  { key := key, path := keyString key, revalidating := reval.isSome,
+    diskWritesDisabled := (client.get b!"authorization").length > 0 }
+
+/-- the header surgery before the origin is asked (server.go:283-352) -/
+def surgeryOf (rr : Option Range.ReqRange) (client : Header) (reval : Option (Key × Stored × Int)) : Conditional.Surgery :=
   let storedHdr : Header := match reval with | some (_, s, _) => s.meta.respHeader | none => []
-  let sg := Conditional.surgery (if reval.isSome then .revalidating else .notFound) rr.isSome client storedHdr
-  let resp? := ask cfg origin req cs sg.req
-  let cs := logged cfg cs sg.req
-  match resp? with
-  | none => .done { disk := d, out := errorJSON 502 b!"Destination unreachable", contacts := cs, label := "w:err" }
-  | some resp =>
-    -- server.go:371-380
-    let (early416, statusOverride, ai) :=
-      if rr.isSome ∧ resp.status = 200 then
-        let (s2, set) := Range.setRangedHeaders rr resp.contentLength 200
-        if s2 ≥ 400 then (some s2, none, ai) else (none, some s2, withRange ai set)
-      else (none, none, ai)
-    match early416 with
-    | some s2 => .done { disk := d, out := { status := s2 }, contacts := cs, label := "w:416" }
-    | none =>
+  Conditional.surgery (if reval.isSome then .revalidating else .notFound) rr.isSome client storedHdr
+
+/-- server.go:371-380: a parsed Range against a 200 of the origin: the early 416, or the status override
+    206 with the range headers added to alwaysInclude -/
+def rangeAdjust (rr : Option Range.ReqRange) (resp : Resp) (ai : Header) : Option Nat × Option Nat × Header :=
+  if rr.isSome ∧ resp.status = 200 then
+    let (s2, set) := Range.setRangedHeaders rr resp.contentLength 200
+    if s2 ≥ 400 then (some s2, none, ai) else (none, some s2, withRange ai set)
+  else (none, none, ai)
+
+/-- Vary: Origin re-keying (server.go:457-467) -/
+def rekey (dirs : Directives) (keys : List Key) (d : Disk) (w : Writer) : Disk × Writer :=
+  if dirs.varyByOrigin ∧ w.key.hasOpaqueOrigin then
+    keys.foldl (fun (acc : Disk × Writer) k => if k.hasFullOrigin then changeKey acc.1 acc.2 k else acc) (d, w)
+  else (d, w)
+
+/-- the entry's stale-if-error allowance against a failed revalidation (server.go:404-418) -/
+def staleIfErrorOf (reval : Option (Key × Stored × Int)) (resp : Resp) : Bool :=
+  match reval with
+  | some (_, s, age) => decide (resp.status ≥ 400) && (getCacheControlDirectives s.meta.respHeader).canStaleIfError age
+  | none => false
+
+/-- a writer row after the origin has answered with `resp` (server.go:371-478); `cs` = the performer's
+    log including this contact -/
+def afterAnswer (cfg : Config) (now : Int) (keys : List Key) (rr : Option Range.ReqRange) (d : Disk)
+    (ai : Header) (cs : List Contact) (reval : Option (Key × Stored × Int)) (w : Writer)
+    (sg : Conditional.Surgery) (resp : Resp) : Step :=
+  match rangeAdjust rr resp ai with
+  | (some s2, _, _) => .done { disk := d, out := { status := s2 }, contacts := cs, label := "w:416" }
+  | (none, statusOverride, ai) =>
     let dirs := getCacheControlDirectives resp.header
     let client1 := if sg.used.length > 0 then sg.req.del sg.used else sg.req
     if sg.used.length > 0 ∧ resp.status = 304 ∧ !dirs.doNotCache then
       -- the row `w:304`: SetRevalidatedAndClose, restore the client's validator, re-enter
-      let (d1, ok) :=
-        if w.diskWritesDisabled then (d, true)
-        else republish d w now (some (Conditional.dropZeroContentLength resp.header))
-      if !ok then .done { disk := d1, out := { status := 500 }, contacts := cs, label := "w:304-closeerr" }
-      else
+      match (if w.diskWritesDisabled then (d, true)
+             else republish d w now (some (Conditional.dropZeroContentLength resp.header))) with
+      | (d1, false) => .done { disk := d1, out := { status := 500 }, contacts := cs, label := "w:304-closeerr" }
+      | (d1, true) =>
         let client2 := if sg.clientKey.length > 0 ∧ sg.clientVal.length > 0 then client1.set sg.clientKey sg.clientVal else client1
         .reenter d1 client2 (ai.set kStatus b!"revalidated") false cs "w:304>"
     else if dirs.doNotCache then
       -- the row `w:uncacheable` (any status, a 304 included): plain stack, the entry stays as it is
       .done { disk := d, out := plainOut cfg resp (ai.set kStatus b!"uncacheable") statusOverride, contacts := cs, label := "w:uncacheable" }
+    else if staleIfErrorOf reval resp then
+      -- the row `w:stale`: SetRevalidateErroredAndClose (the entry is untouched), re-enter with skipRevalidate
+      .reenter d client1 (ai.set kStatus b!"stale") true cs "w:stale>"
     else
-      let staleIfError : Bool := match reval with
-        | some (_, s, age) => decide (resp.status ≥ 400) && (getCacheControlDirectives s.meta.respHeader).canStaleIfError age
-        | none => false
-      if staleIfError then
-        -- the row `w:stale`: SetRevalidateErroredAndClose (the entry is untouched), re-enter with skipRevalidate
-        .reenter d client1 (ai.set kStatus b!"stale") true cs "w:stale>"
-      else
-        let ai := ai.set kStatus (if reval.isSome then b!"revalidated" else b!"miss")
-        let ai := if shouldSkip then ai.set kStatus b!"pass" else ai
-        let ai := ai.set b!"Age" b!"0"
-        -- Vary: Origin re-keying (server.go:457-467)
-        let (d, w) :=
-          if dirs.varyByOrigin ∧ key.hasOpaqueOrigin then
-            keys.foldl (fun (acc : Disk × Writer) k => if k.hasFullOrigin then changeKey acc.1 acc.2 k else acc) (d, w)
-          else (d, w)
-        if shouldSkip then
+      let ai := ai.set kStatus (if reval.isSome then b!"revalidated" else b!"miss")
+      let ai := if w.diskWritesDisabled then ai.set kStatus b!"pass" else ai
+      let ai := ai.set b!"Age" b!"0"
+      match rekey dirs keys d w with
+      | (d, w) =>
+        if w.diskWritesDisabled then
           .done { disk := d, out := plainOut cfg resp (ai.set kStatus b!"pass") statusOverride, contacts := cs, label := "w:pass" }
         else
           -- requestHandler on the caching stack
@@ -559,9 +567,19 @@ def writerRow (cfg : Config) (origin : Bytes → Option Origin) (now : Int) (req
           if status = 304 then
             .done { disk := d, out := { status := 304, header := h }, contacts := cs, label := "w:client304" }
           else
-            let redirect : Bytes := []
-            let fr := cachingFill cfg d w now status h resp redirect rr
+            let fr := cachingFill cfg d w now status h resp [] rr
             .done { disk := fr.disk, out := { status := status, header := h, writes := oneWrite fr.toClient }, contacts := cs, label := fr.label }
+
+/-- the writer rows of `cachingFunc` (server.go:283-478): NotFoundWriter (nothing stored) or
+    RevalidatingWriter (`reval` = the key it was found under, the entry, its age) -/
+def writerRow (cfg : Config) (origin : Bytes → Option Origin) (now : Int) (req : Request)
+    (keys : List Key) (rr : Option Range.ReqRange) (d : Disk) (client ai : Header) (cs : List Contact)
+    (reval : Option (Key × Stored × Int)) : Step :=
+  let w := writerOf keys client reval
+  let sg := surgeryOf rr client reval
+  match ask cfg origin req cs sg.req with
+  | none => .done { disk := d, out := errorJSON 502 b!"Destination unreachable", contacts := logged cfg cs sg.req, label := "w:err" }
+  | some resp => afterAnswer cfg now keys rr d ai (logged cfg cs sg.req) reval w sg resp
 
 /-- the key list of a request (`caching.KeysFromRequest` on the rule-rewritten request) -/
 def keysOf (cfg : Config) (req : Request) (client : Header) : List Key :=
